@@ -5,7 +5,7 @@ Correspondence: (1) the model's lexer vs ANTLR's on random layouts and random ch
 (2) engine_case on the base layout.  Oracle: every re-layout of a query (random white space at every
 token boundary outside string literals) must be valid iff the base is and give the same result multiset
 on the real engine."""
-import collections, json, random
+import collections, json, os, random, shutil
 from vlib import common as C, engine as E, querygen as QG, genquery as GQ
 from checks import c01
 
@@ -21,6 +21,7 @@ def run(run):
     nq = 80 if quick else 600
     nlay = 4 if quick else 10
     mism, lexmism, stats = [], [], collections.Counter()
+    tmpdir = C.scratch("c14")
 
     def lex_pair(text):
         rr = h.call(op="lex", q=text)
@@ -87,6 +88,31 @@ def run(run):
                                           dict(base=base_text, layout=text, base_results=sum(wantc.values()), layout_results=sum(got.values()), java=E.java_files(proj)))
                         if j == 0 and i < 2:
                             run.sample(dict(base=base_text, layout=text, results=sum(wantc.values())))
+                        # the same re-layout as the body of a rule file: both rule-file readers flatten it line by line
+                        if "\n" in text and j < 2:
+                            for path in ("ci-reader", "file-reader"):
+                                if path == "ci-reader":
+                                    er = h.call(op="rule", text=text)
+                                    extracted = (er.get("rule") or {}).get("query")
+                                else:
+                                    fp = os.path.join(tmpdir, "r.cql")
+                                    open(fp, "w", encoding="utf-8", newline="").write(text)
+                                    er = h.call(op="extract", path=fp)
+                                    extracted = er.get("query")
+                                stats["rule_file_layouts"] += 1
+                                r2 = h.call(op="query", graph=proj.name, q=extracted or "", output="json") if extracted is not None else dict(outcome="no-query")
+                                got2 = None
+                                if r2.get("outcome") == "ok":
+                                    try:
+                                        got2 = collections.Counter((e["file"], e["line"], e["code"]) for e in json.loads(r2["result"])["result_set"])
+                                    except Exception:
+                                        pass
+                                if got2 is None:
+                                    run.violation("C14:rulefile-relayout-invalid", "a re-wrapped rule body read by the %s is no longer a valid query: %r" % (path, text),
+                                                  dict(base=base_text, layout=text, extracted=extracted, err=r2.get("err") or r2.get("panic")))
+                                elif got2 != wantc:
+                                    run.violation("C14:rulefile-relayout-changes-results", "a re-wrapped rule body read by the %s gives other results: %r" % (path, text),
+                                                  dict(base=base_text, layout=text, extracted=extracted, base_results=sum(wantc.values()), layout_results=sum(got2.values())))
                     # the recorded exception: white space next to the ' in ' token
                     if has_in:
                         k = q.kinds.index("' in '")
@@ -111,6 +137,7 @@ def run(run):
     finally:
         h.close()
         d.close()
+        shutil.rmtree(tmpdir, ignore_errors=True)
     run.extra["histogram"] = dict(stats)
     if mism:
         run.broken_obligation("correspondence:engine", "model vs implementation: %s" % json.dumps(mism[:3])[:1200])
